@@ -284,7 +284,7 @@ pub fn c01_finish() -> BoxedStrategy<Finish> {
     prop_oneof![
         5 => (proptest::sample::select(vec![0usize, 1, 1000, 1023, 1024, 1025, 3000, 9000, 40000]), proptest::bool::weighted(0.8), proptest::option::weighted(0.4, prop_oneof![Just(0usize), Just(usize::MAX)]))
             .prop_map(|(body_len, declared, threshold)| Finish::Respond { status: 200, body_len, declared, threshold }),
-        3 => (proptest::sample::select(vec![0usize, 10, 1000, 1024, 1025, 5000]), proptest::collection::vec(0u16..1024, 0..4), any::<u8>()).prop_map(|(body_len, cuts, flush_mask)| Finish::Writer { body_len, cuts, flush_mask, zero_writes: flush_mask & 0x80 != 0 }),
+        3 => (proptest::sample::select(vec![0usize, 10, 1000, 1024, 1025, 5000]), proptest::collection::vec(0u16..1024, 0..4), any::<u8>()).prop_map(|(body_len, cuts, flush_mask)| Finish::Writer { body_len, cuts, flush_mask, zero_writes: flush_mask & 0x80 != 0, how: (flush_mask >> 4) & 3 }),
         2 => Just(Finish::Drop),
         1 => Just(Finish::WriterUnused),
     ]
